@@ -14,6 +14,7 @@ def jobs(tier):
     strata = [dict(name="L2/S-shape", ns=[1, 2, 3] + ([4] if t else []), pin={3: 3, 4: 6}, params=dict(ex, K_m=2 if t else 1, K_r=1)),
               dict(name="L2/S-elem4", ns=[2] + ([3] if t else []), pin={3: 3}, params=dict(ex, K_m=1, K_r=1, alphabet=SIGMA_T4))]
     js = shape_strata(M, "c09", tier, quick=strata, thorough=strata, max_seconds=ms)
+    js += shape_strata(M, "c09", tier, quick=[dict(name="L2/scrambled-labels", ns=[2, 3], pin={3: 3}, params=dict(ex, K_m=1, K_r=0, scramble=True))], thorough=[dict(name="L2/scrambled-labels", ns=[2, 3, 4], pin={3: 3, 4: 6}, params=dict(ex, K_m=1, K_r=0, scramble=True))], max_seconds=ms)
     js.append(job(M, "c09", "L2/default-bond-type/n3", dict(ex, n=3, K_m=0, K_r=0, default_bond_type=True), max_seconds=ms))
     strata3 = [dict(name="L3/S-shape", ns=[1, 2, 3] + ([4] if t else []), pin={3: 3, 4: 6}, params=dict(ex, K_m=2 if t else 1, K_r=1)),
                dict(name="L3/S-elem4", ns=[2] + ([3] if t else []), pin={3: 3}, params=dict(ex, K_m=1, K_r=0, alphabet=SIGMA_T4))]
